@@ -12,7 +12,7 @@ from vlib.core import sx
 
 PROP = "C16"
 MODE = "prog"
-STALL = 90.0
+STALL = 300.0
 RULE = ("arm lists drawn from pattern pools (literal, variable, wildcard, tuple with literal / repeated-variable / wildcard "
         "elements, array [x] [h|t] [h ...] [... l] [a ... b] [a, b | r] [* ... t] [* ... m l] [] and literal heads, enum "
         "variants with and without payload; guards in match expressions, also on the wildcard arm) in every order: all "
